@@ -126,6 +126,12 @@ type P18 struct {
 	Next *P18  `json:"next"`
 }
 
+// P19 holds one free-form value: the only property of a struct-mapped object through which a shorthand chain can
+// lead on into map-based objects.
+type P19 struct {
+	Q any `json:"q"`
+}
+
 type P9 struct {
 	FieldByName int64
 	Other       string `json:"other,omitempty"`
@@ -177,6 +183,8 @@ func buildStruct(name, id string, props map[string]*schema.PropertySchema) *sche
 		return schema.NewStructMappedObjectSchema[P16](id, props)
 	case "P17":
 		return schema.NewStructMappedObjectSchema[P17](id, props)
+	case "P19":
+		return schema.NewStructMappedObjectSchema[P19](id, props)
 	case "P10":
 		return schema.NewStructMappedObjectSchema[P10](id, props)
 	case "*P10":
@@ -185,9 +193,61 @@ func buildStruct(name, id string, props map[string]*schema.PropertySchema) *sche
 	panic(fmt.Sprintf("gen: unknown pool struct %q", name))
 }
 
+// buildTypedStruct is buildStruct through the typed constructor (NewTypedObject, and every third one its Any() view):
+// the same object for every untyped operation, but another Go type in the schema tree.
+func buildTypedStruct(name, id string, props map[string]*schema.PropertySchema, anyView bool) schema.Object {
+	switch name {
+	case "P1":
+		if anyView {
+			return schema.NewTypedObject[P1](id, props).Any()
+		}
+		return schema.NewTypedObject[P1](id, props)
+	case "*P1":
+		return schema.NewTypedObject[*P1](id, props)
+	case "P3":
+		return schema.NewTypedObject[P3](id, props)
+	case "P5":
+		if anyView {
+			return schema.NewTypedObject[P5](id, props).Any()
+		}
+		return schema.NewTypedObject[P5](id, props)
+	case "*P5":
+		return schema.NewTypedObject[*P5](id, props)
+	case "P2":
+		return schema.NewTypedObject[P2](id, props)
+	case "P8":
+		return schema.NewTypedObject[P8](id, props)
+	case "P13":
+		return schema.NewTypedObject[P13](id, props)
+	case "P19":
+		if anyView {
+			return schema.NewTypedObject[P19](id, props).Any()
+		}
+		return schema.NewTypedObject[P19](id, props)
+	}
+	return buildStruct(name, id, props)
+}
+
+// buildTypedScope is NewTypedScopeSchema over the root's native type.
+func buildTypedScope(rootStruct string, root *schema.ObjectSchema, others []*schema.ObjectSchema) schema.Type {
+	switch rootStruct {
+	case "":
+		return schema.NewTypedScopeSchema[map[string]any](root, others...)
+	case "P1":
+		return schema.NewTypedScopeSchema[P1](root, others...)
+	case "P5":
+		return schema.NewTypedScopeSchema[P5](root, others...)
+	case "P19":
+		return schema.NewTypedScopeSchema[P19](root, others...)
+	}
+	return schema.NewScopeSchema(root, others...)
+}
+
 // ZeroStruct returns the zero value of the named pool type (for wrong-struct probes).
 func ZeroStruct(name string) any {
 	switch name {
+	case "P19":
+		return P19{}
 	case "P1":
 		return P1{}
 	case "*P1":
